@@ -1,6 +1,7 @@
 """Obligations that are not generated from one function's contract: the once-only gate rule for concurrent
 terminations (C04 asyncio clause, C20 threads), stability lemmas over the manager contracts, twin normal forms (C14)."""
 import ast
+import os
 import json
 import time
 import z3
@@ -262,8 +263,54 @@ def bounded_codec(prop):
     return out
 
 
+def lean_lemmas():
+    """the arithmetic lemmas the codec contracts assume (lemmas/Lemmas.lean), re-checked by lean on every run"""
+    import subprocess
+    t0 = time.time()
+    root = os.path.dirname(os.path.dirname(os.path.abspath(__file__)))
+    try:
+        p = subprocess.run(['lean', os.path.join(root, 'lemmas', 'Lemmas.lean')], capture_output=True, text=True, timeout=300)
+        bad = p.returncode != 0 or 'error' in (p.stdout + p.stderr) or 'sorry' in (p.stdout + p.stderr)
+        return [ob('lemma/lean.Lemmas(off_mono,dbl_closed,reachable_inv,off_pos_iff)', 'undecided' if bad else 'proved', 'lemma', t0,
+                   why=(p.stdout + p.stderr)[-1500:] if bad else None, backend='lean4', function='lemmas/Lemmas.lean')]
+    except Exception as e:      # noqa: BLE001
+        return [ob('lemma/lean.Lemmas(off_mono,dbl_closed,reachable_inv,off_pos_iff)', 'undecided', 'lemma', t0, why=str(e), backend='lean4', function='lemmas/Lemmas.lean')]
+
+
+def witnesses(prop):
+    """thorough tier: the witness of every open known finding of the property is run against the real code (exit 1 = the
+    defect reproduces).  Informational: the verdict stays with the obligations."""
+    import subprocess
+    root = os.path.dirname(os.path.dirname(os.path.abspath(__file__)))
+    out = {}
+    try:
+        kf = json.load(open(os.path.join(root, 'known_findings.json')))['findings']
+    except Exception:      # noqa: BLE001
+        return out
+    env = dict(os.environ)
+    env['PYTHONPATH'] = os.path.join(os.environ.get('VERIF_REPO_ROOT', '/repo'), 'src')
+    for k in kf:
+        w = k.get('witness')
+        if k.get('property') != prop or not w or w in out or k.get('status', 'open') != 'open':
+            continue
+        try:
+            p = subprocess.run(['/venv/bin/python', os.path.join(root, w)], capture_output=True, text=True, timeout=300, env=env, cwd='/tmp')
+            out[w] = {'exit': p.returncode, 'reproduces': p.returncode == 1, 'tail': (p.stdout + p.stderr)[-400:]}
+        except Exception as e:      # noqa: BLE001
+            out[w] = {'exit': None, 'error': str(e)}
+    return out
+
+
+WITNESS_RUNS = {}
+
+
 def run(prop, tier, seed):
     out = []
+    if tier == 'thorough':
+        WITNESS_RUNS[prop] = witnesses(prop)
+        os.environ['VERIF_BOUNDED_DEPTH'] = '3'
+    if prop == 'C01':
+        out += lean_lemmas()
     if prop in ('C01', 'C02'):
         out += bounded_codec(prop)
     if prop == 'C07':
